@@ -1008,6 +1008,10 @@ mod pipeline {
             assert!(self.cmds.len() >= 2);
 
             let (err_read, err_write) = crate::popen::make_pipe()?;
+            // our end must not be inherited by the commands: as long as one
+            // of them held it the pipe could never report end-of-file
+            // correctly to anyone else
+            crate::popen::set_inheritable(&err_read, false)?;
             self = self.stderr_to(err_write);
 
             let stdin_data = self.stdin_data.take();
